@@ -56,6 +56,19 @@ func selectByFile(pkgs []*packages.Package, file string) *packages.Package {
 }
 
 func commonPrefix(paths []string) string {
+	prefix := commonStringPrefix(paths)
+	// the common string prefix may stop in the middle of a path component
+	// (/src/alpha and /src/alto share /src/al) : cut it back to a directory boundary
+	sep := string(filepath.Separator)
+	for _, p := range paths {
+		if rest := p[len(prefix):]; rest != "" && !strings.HasPrefix(rest, sep) && !strings.HasSuffix(prefix, sep) {
+			return prefix[:strings.LastIndex(prefix, sep)+1]
+		}
+	}
+	return prefix
+}
+
+func commonStringPrefix(paths []string) string {
 	index := 0
 	first := paths[0]
 	for ; index < len(first); index++ {
